@@ -64,14 +64,17 @@ PROPS = {
     },
     "C10": {
         "level": "proof",
-        "verus": ["name"],
+        "verus": ["name", "numbers"],
         "kani": ["apollo-compiler/name.rs", "apollo-compiler/ast_impls.rs"],
         "technique": "Verus contracts on extracted Name code (unbounded) + bounded Kani harnesses for the numeric literal checks and the unsafe constructors",
         "explanation": "Verus proves for every string of any length that Name::is_valid_syntax equals the Name grammar and that Name::new / new_static / "
-                       "check_valid_syntax return Ok iff it holds (the same function serves serde deserialization). Bounded stand-ins (Kani, fixed lengths, "
+                       "check_valid_syntax return Ok iff it holds (the same function serves serde deserialization). Unit numbers: From<i32> for IntValue and From<f64> for FloatValue return text that matches the "
+                       "IntValue / FloatValue grammar for every i32 / every finite f64 (`.0` appended exactly when the printed number has no fractional part), GIVEN the assumed shape of what std prints "
+                       "(optional `-`, digits without leading zero, optional `.digits`, never an exponent). Bounded stand-ins (Kani, fixed lengths, "
                        "not counted as proved): IntValue/FloatValue::valid_syntax equal the IntValue/FloatValue grammar on all ASCII strings up to length 3 "
                        "(5 in thorough); the unsafe constructors read back the bytes supplied.",
-        "not_decided": ["From<i32>/From<f64> -> literal -> same number (core::fmt float printing; not reachable by either verifier)",
+        "assumptions": ["what i32::to_string / f64::to_string print (core::fmt; shape assumed: see unit numbers), str::contains(char), String::push_str"],
+        "not_decided": ["that the literal made from a number converts back to the SAME number (round-trip guarantee of std's float printing and parsing; only the syntax of the literal is decided)",
                         "Type Display/parse round-trip (fmt + full parser)",
                         "numeric syntax beyond the stated length bound; non-ASCII input to the numeric checks",
                         "that a byte string of valid UTF-8 matches [_A-Za-z][_0-9A-Za-z]* as chars iff it matches as bytes (all accepted bytes are ASCII: lemma_name_is_ascii)"],
